@@ -28,6 +28,22 @@ T = [
  ("C13-A", "C13", "C13.R4", "loop waits for handlers before draining"),
  ("C13-B", "C13", "C13.R7", "isTerminal hoisted: terminal route after a non-terminal one treated as non-terminal"),
  ("C13-B", "C02", "C02.R7", "isTerminal hoisted"),
+ ("C03-A", "C03", "C03.R3", "pump's completion channel made unbuffered"),
+ ("C03-B", "C03", "C03.R6", "Wrap hands unread bytes on"),
+ ("fixrev-40ad23d", "C03", "C03.R5", "dialed upstream leaked when the header write fails"),
+ ("C10-A", "C10", "C10.R5", "round robin counter advanced once per selection"),
+ ("C10-B", "C10", "C10.R4", "healthy() consults only the first peer's failure count"),
+ ("fixrev-9c0f4f8", "C10", "C10.R1", "leastConns dereferences nil slots"),
+ ("fixrev-3cbc344", "C10", "C10.R5", "round robin index read plainly"),
+ ("C11-A", "C11", "C11.R1", "failure forgetter aborts on context cancellation"),
+ ("C11-B", "C11", "C11.R6", "active check resets the failure counter"),
+ ("C10-B", "C11", "C11.R5", "healthy() consults only the first peer"),
+ ("fixrev-8212113", "C11", "C11.R2", "countConn never called"),
+ ("C12-A", "C12", "C12.R7", "tidyRules drops the first rule"),
+ ("C12-B", "C12", "C12.R4", "dialPeers switches on the raw option string"),
+ ("C03-B", "C12", "C12.R2", "Wrap hands unread bytes on"),
+ ("C17-A", "C17", "C17.R3", "total limiter dropped when the local one is stricter"),
+ ("C17-B", "C17", "C17.R1", "underlying read not clamped to the batch"),
  ("C05-A", "C05", "C05.R2", "deadline armed once only; not re-armed after a matched non-terminal route"),
  ("C05-B", "C05", "C05.R5", "buffer limit measured from the cursor"),
  ("fixrev-396f23a", "C05", "C05.R2", "fallback of an empty route list runs with the deadline armed"),
